@@ -1667,6 +1667,9 @@ fn run(v: &Value) -> Result<String, String> {
             for p in pointers { for val in [json!(5), json!({"b": {"k": 1}})] { ops.push(Op::Req(p, Some(val))); } }
             for p in ["/a", "/f", "/a/b", ""] { ops.push(Op::Req(p, Some(Value::Null))); }
             ops.push(Op::Req("/a", Some(json!("str"))));
+            // root writes that overwrite keys already in the document
+            ops.push(Op::Req("", Some(json!({"a": 77, "fresh": 1}))));
+            ops.push(Op::Req("/", Some(json!({"s": {"now": "object"}, "arr": null}))));
             ops.push(Op::Req("/arr", Some(json!({"o": 1}))));
             ops.push(Op::Merge(json!({"a": 9, "q": [1]})));
             for p in ["/a", "/c~1d", "/u~01", "/t~0", "/arr", "/a/b", "/nope", "", "a"] { ops.push(Op::MergeAt(p, json!({"m": 1}))); }
